@@ -143,6 +143,16 @@ func (g *c14gen) unusedNode(t *Topo) *Node {
 
 // mutate returns a new valid topology and the name of the transition.
 func (g *c14gen) mutate(kind string) (*Topo, string) {
+	if kind == "pad-large" {
+		// a range moves, and the text is as long as a cluster's that never forgot its
+		// failed nodes: anywhere up to the 163840 bytes the proxy accepts, with the
+		// sizes around 99999 / 100000 (one more digit in the bulk header) and the
+		// maximum itself preferred
+		t, _ := g.mutate("move-range")
+		sizes := []int{99999, 100000, 100001, 163840, 163839, 100000 + g.rng.Intn(63840), 20000 + g.rng.Intn(80000)}
+		t.PadTo = sizes[g.rng.Intn(len(sizes))]
+		return t, "pad-large"
+	}
 	t := cloneTopo(g.cur)
 	ms := g.masters(t)
 	rng := g.rng
@@ -381,7 +391,7 @@ func (g *c14gen) mutate(kind string) (*Topo, string) {
 }
 
 var c14valid = []string{"move-node-address", "shift-boundary", "move-range", "single-slot", "unclaim-range", "add-master", "add-replica", "add-replica-loading", "add-replica-linkdown", "remove-replica",
-	"remove-master", "failover", "reparent-replica", "change-ids", "flag-master-fail", "flag-replica", "unflag", "migration-markers", "seven-column-line", "toggle-cport", "move-range", "failover"}
+	"remove-master", "failover", "reparent-replica", "change-ids", "flag-master-fail", "flag-replica", "unflag", "migration-markers", "seven-column-line", "toggle-cport", "move-range", "failover", "pad-large"}
 
 var (
 	c14deckMu sync.Mutex
@@ -583,7 +593,7 @@ func (p *c14probe) check(ref *c14ref, t *Topo, rng *rand.Rand, full bool) []c14m
 }
 
 func runC14(c *Check, rng *rand.Rand) {
-	c.Rule = "random histories of CLUSTER NODES descriptions (ranges split/moved/single-slot/unclaimed, masters added/removed/failed, failover, replicas added (also loading / link down), removed, re-parented, flagged fail/handshake/noaddr/disconnected, node ids changed, migration markers, 7-column lines, @cport on/off) interleaved with unusable replies (error, nil, +OK, empty, oversized, garbage, two nodes), starting also with an unusable reply; after each valid description routing probes (every range boundary +-1, random slots; writes and reads) are compared with a reference interpreter, polled every 250 ms, verdict at 10 s; after each unusable reply the previous map must still be in force; one lane (thorough: a third of them) runs with delay hooks armed inside the refresh goroutine and the ticker so that the table rebuild overlaps the refresh; distinct = (transition kind, preceding unusable kind)"
+	c.Rule = "random histories of CLUSTER NODES descriptions (ranges split/moved/single-slot/unclaimed, masters added/removed/failed, failover, replicas added (also loading / link down), removed, re-parented, flagged fail/handshake/noaddr/disconnected, node ids changed, migration markers, 7-column lines, @cport on/off, texts padded with forgotten failed nodes up to exactly 163840 bytes) interleaved with unusable replies (error, nil, +OK, empty, oversized, garbage, two nodes), starting also with an unusable reply; after each valid description routing probes (every range boundary +-1, random slots; writes and reads) are compared with a reference interpreter, polled every 250 ms, verdict at 10 s; after each unusable reply the previous map must still be in force; one lane (thorough: a third of them) runs with delay hooks armed inside the refresh goroutine and the ticker so that the table rebuild overlaps the refresh; distinct = (transition kind, preceding unusable kind)"
 	c.Assumptions = []string{
 		"'within a few seconds' is restated as <= 10 s after the fake nodes start serving the description (nominal <= ~2 s: 1 s probe tick + 1 s table tick)",
 		"ambiguities resolved permissively: nodes flagged 'fail?' and known replicas that start loading later may be used or not; slots of such masters are not probed",
